@@ -220,9 +220,9 @@ class RainfallClimateNetwork(ClimateNetwork):
 
         m = len(rainfall) * len(rainfall.T)
 
-        onelist = rainfall.reshape(m)
+        onelist = rainfall.flatten()
 
-        onelist = onelist[onelist.sort()][0]
+        onelist.sort()
 
         downlimit = m * event_threshold[0] // 1
 
